@@ -2,7 +2,7 @@
    Every client loop takes an ARBITRARY list of layouts (one per iteration / regrouping round):
    the layout may change between the partial requests of one call. `sorted st` is the store
    invariant (established by [] and preserved by every mutating operation, see the _sorted parts). *)
-From Verif Require Import RawKV.Model RawKV.ProofsStore RawKV.ProofsLoops RawKV.ProofsBatch RawKV.ProofsTop.
+From Verif Require Import RawKV.Model RawKV.ProofsStore RawKV.ProofsLoops RawKV.ProofsBatch RawKV.ProofsTop RawKV.Sequence.
 
 (* get / put (with ttl) / delete: the map laws; the ttl never influences what Get returns *)
 Theorem C11_get_put_delete : forall st k v ttl k',
@@ -124,6 +124,14 @@ Theorem C11_cas : forall st k prev nv,
 Proof. exact c11_cas. Qed.
 Print Assumptions C11_cas.
 
+(* whole sequences: ANY list of calls, each carrying ANY layout schedule, returns the results and
+   leaves the map that the same calls produce on one ordered map (spec_op mentions no layout) *)
+Theorem C11_sequence : forall digest ops st rs st',
+  sorted st -> run_ops digest st ops = Some (rs, st') ->
+  (rs, st') = spec_ops digest st ops /\ sorted st'.
+Proof. exact run_ops_spec. Qed.
+Print Assumptions C11_sequence.
+
 (* ---------------------------------------------------------------- non-vacuity *)
 Definition ex_store : store :=
   srv_batch_put [] [([97], mkEntry [1] 0); ([98], mkEntry [2] 5); ([98; 0], mkEntry [] 0);
@@ -155,4 +163,12 @@ Proof. vm_compute. reflexivity. Qed.
 Example ex_cksum_cut :
   cksum (fun k v => N.of_nat (length k + length v)) ex_store [[[98]]; [[99]]; []] [] []
   = cksum (fun k v => N.of_nat (length k + length v)) ex_store [[]] [] [].
+Proof. vm_compute. reflexivity. Qed.
+Example ex_sequence :
+  option_map fst (run_ops (fun _ _ => 0) []
+    [OBatchPut [([97], mkEntry [1] 0); ([99], mkEntry [3] 0); ([97], mkEntry [2] 0)] [([[98]], fun _ => true)];
+     OCas [98] None [7];
+     ODeleteRange [97; 0] [] [[[98]]; [[99]]; []];
+     OScan [] [] 5 [[]]])
+  = Some [RUnit; RCas None true; RUnit; RPairs [([97], [2])]].
 Proof. vm_compute. reflexivity. Qed.
